@@ -325,6 +325,74 @@ def ref_scope(tree: Any, beh: Dict[int, Any]) -> Tuple[List[int], List[Any]]:
     return frames, []
 
 
+def lin_depth(t: Any, d: int) -> List[List[Any]]:
+    """Terminals with the number of unwrapping layers that reach them (t itself sits at depth d)."""
+    if t is None:
+        return []
+    if t[0] == "F":
+        return [[("F", t[1]), d]]
+    if t[0] == "G":
+        return [[("F", t[1]), d + 1]]
+    if t[0] == "L":
+        return [[("L", t[1]), d]]
+    kids = t[2] if t[0] == "I" else t[1]
+    if t[0] == "I" and t[1] == "none":
+        return [[("X", id(t)), d]]
+    if t[0] == "I" and t[1] == "empty":
+        return []
+    out: List[List[Any]] = []
+    for k in kids:
+        out.extend(lin_depth(k, d + 1))
+    return out
+
+
+def ref_depth(tree: Any, beh: Dict[int, Any]) -> Tuple[List[int], List[Any]]:
+    """Reading 3, the one the property statement and the code comments spell out: every item
+    carries the number of unwrapping layers that reached it; PRUNE / a replacement issued by a
+    frame at depth d removes the items that follow it for as long as they are at depth >= d
+    ("its callees") and nothing shallower ("nothing outward of them"); an insert puts its items
+    (at depth d) before next_inner, which is never left deeper than d."""
+    seq = lin_depth(tree, 0)
+    frames: List[int] = []
+    i = 0
+    while i < len(seq):
+        el, d = seq[i]
+        if el[0] != "F":
+            return frames, [x[0] for x in seq[i:]]
+        frames.append(el[1])
+        b = beh.get(el[1], ["none"])
+        k = b[0]
+        if k == "none":
+            new_trees = None
+        elif k in ("prune", "empty"):
+            new_trees = []
+        elif k == "rep1":
+            new_trees = [b[1]]
+        elif k == "repseq":
+            new_trees = list(b[1])
+        elif k == "ins":
+            new_trees = list(b[1])
+        else:
+            raise AssertionError(b)
+        if new_trees is not None:
+            if k == "ins":
+                if i + 1 < len(seq) and seq[i + 1][1] > d:
+                    seq[i + 1][1] = d
+            else:
+                j = i + 1
+                while j < len(seq) and seq[j][1] >= d:
+                    j += 1
+                del seq[i + 1:j]
+            new: List[List[Any]] = []
+            for t in new_trees:
+                new.extend(lin_depth(t, d))
+            seq[i + 1:i + 1] = new
+        i += 1
+        if len(frames) > 200:
+            raise RuntimeError("reference diverges")
+    return frames, []
+
+
 def real_extract(tree: Any, beh: Dict[int, Any], with_contexts: bool = False) -> Dict[str, Any]:
     """Run the real extract() on the built tree; return a comparable summary."""
     set_behaviour(beh)
